@@ -52,6 +52,9 @@ class TransformPolicy(P.PrinterPolicy):
     def loop_scheme(self, interp, loop_id, s):
         return 'generic'
 
+    def recursion_limit(self, interp, spec):
+        return 1
+
     def on_write(self, interp, obj, name, value):
         if not hasattr(self, 'writes'):
             self.writes = []
@@ -623,9 +626,14 @@ def task_return_none_functiondef():
         body0 = interp.getattr(root, 'body')
         n0 = ctx.data(body0).symlen
         before = dict((f, interp.getattr(root, f)) for f in ('name', 'args', 'decorator_list', 'returns'))
+        rd.extra['input_root'] = True
         r = interp.call(interp.getattr(o, 'visit_FunctionDef'), [root], {})
         pruned.update(interp.pruned)
         ctx.check(name + '/returns-the-function', r == root, kind='post')
+        # frame: statements nested in the function are rewritten only by their own visit (by contract); this method itself writes root.body and nothing else
+        # of the input.  (A `return` at the end of a nested suite is not "the last statement in a function": leaving that suite may run an else clause.)
+        stray = ctx.input_writes(allowed=[(root, 'body'), (root, 'parent'), (root, 'namespace')])
+        ctx.check(name + '/writes-nothing-of-the-input-but-the-function-body', not stray, kind='frame', detail='writes to %r' % (stray[:6],))
         body1 = rd.fields['body']
         for f in before:
             ctx.check(name + '/leaves-%s-alone' % f, rd.fields.get(f) == before[f] or rd.fields.get(f) is before[f], kind='frame')
